@@ -122,7 +122,8 @@ class BARTMAP(BaseEstimator, BiclusterMixin):
             # Simple optimization to gain speed (inspect is slow)
             return self
         valid_params = self.get_params(deep=True)
-        local_params = dict()
+        local_params = dict(self.params)
+        plain_params = dict()
 
         nested_params = defaultdict(dict)  # grouped by prefix
         for key, value in params.items():
@@ -137,13 +138,18 @@ class BARTMAP(BaseEstimator, BiclusterMixin):
             if delim:
                 nested_params[key][sub_key] = value
             else:
-                setattr(self, key, value)
-                valid_params[key] = value
-                local_params[key] = value
+                plain_params[key] = value
+                if key in local_params:
+                    local_params[key] = value
+
+        # validate first: a rejected call must leave the estimator as it was
+        self.validate_params(local_params)
+        for key, value in plain_params.items():
+            setattr(self, key, value)
+            valid_params[key] = value
 
         for key, sub_params in nested_params.items():
             valid_params[key].set_params(**sub_params)
-        self.validate_params(local_params)
         return self
 
     @staticmethod
